@@ -477,17 +477,8 @@ theorem tracer_decision_by_package_state (c : Levels) (p : Nat) :
 theorem tracer_refused (c : Levels) (ok : Bool) (pkg : Option Nat) (ex : Bool) :
     addTracer c true ok pkg ex = false ∧ addTracer c false ok pkg true = false ∧
       (c.active = true → addTracer c false false pkg ex = false) ∧
-      (c.active = true → addTracer c false ok none ex = false) := by
-  obtain ⟨a, b, d⟩ := addTracer_refuses c ok pkg ex
-  refine ⟨a, b, d, ?_⟩
-  intro h
-  cases hx : addTracer c false ok none ex with
-  | false => rfl
-  | true =>
-    have h2 : addTracer c false true none false = true := by
-      revert hx; unfold addTracer PB.Gen.Log.addTracer; cases ok <;> cases ex <;> simp [h]
-    have := (addTracer_iff c none).mp h2
-    simp [enabled, h] at this
+      (c.active = true → addTracer c false ok none ex = false) :=
+  addTracer_refuses c ok pkg ex
 
 /-- In every reachable state a live tracer was created while Trace was enabled for the origin that called
     `AddTracer`, under the levels in force at that moment. -/
